@@ -10,6 +10,7 @@ Scenario fields (all optional, JSON-able so it can be stored in a replay file):
   faults_after_apply : [api_call_number...]  fault raised after the backend applied the batch
   paging        : {inv_number: [first_page, page]} | "random"
   resp_page     : page size of checkpoint responses
+  empty_pages   : [n, ...] the n-th page fetch returns no operations but a marker; trailing_empty_page: one more empty page at the end
   timer_lag     : seconds by which the backend lags in flipping timers
   api_latency   : virtual seconds a checkpoint API call takes (other threads run meanwhile)
   ext           : {path: [outcome, payload|error]} outcome of external completions (default SUCCEEDED)
@@ -85,6 +86,8 @@ class Execution:
         self._sched = None
         self.backend = ModelBackend(self.clock, timer_lag=self.sc.get("timer_lag", 0.0))
         self.backend.resp_page = self.sc.get("resp_page")
+        self.backend.empty_pages = set(self.sc.get("empty_pages") or [])       # page fetches answered with an empty page + marker
+        self.backend.trailing_empty_page = bool(self.sc.get("trailing_empty_page"))
         self.backend.fail_get_state_at = self.sc.get("get_state_fault")     # n: the n-th page fetch (GetDurableExecutionState) fails
         for k, v in (self.sc.get("faults") or {}).items():
             self.backend.fail_at[int(k)] = v
